@@ -308,7 +308,7 @@ func lSource(kind string, n int) string {
 func lFamily(tier string) *core.Family {
 	ns := []int{100, 10000}
 	if tier == "thorough" {
-		ns = []int{100, 1000, 10000, 30000}
+		ns = []int{100, 1000, 10000, 15000} // golua compiles at most 32767 instructions per function
 	}
 	type cs struct {
 		kind string
